@@ -26,20 +26,26 @@ impl Monitor for C10 {
 		"C10"
 	}
 	fn rule(&self) -> String {
-		"C01's replay space restricted to finished files (Game End present: single or doubled), all versions/layouts, gecko 0/1/3+ blocks, metadata/none, frame counts 0/1/many, x hash {off,on}. Oracle: slippi::read with skip_frames returns start, end, metadata equal to the full read and zero frame rows; the skip result can be written as .slp and re-read to the same start/end/metadata, and written as .slpp and re-read; peppi::read with skip_frames on the .slpp of the full game returns the same start/end/metadata/gecko/hash and zero rows. One evaluation = one (file, hash) pair. distinct = workload classes x hash.".into()
+		"C01's replay space restricted to finished files (Game End present: single or doubled), all versions/layouts, gecko 0/1/3+ blocks, metadata/none, frame counts 0/1/many, x hash {off,on}; plus size-targeted replays (up to tens of thousands of frames) whose skipped region is an exact multiple of 4 KiB / 8 KiB / 64 KiB, or one frame off. Oracle: slippi::read with skip_frames returns start, end, metadata equal to the full read and zero frame rows; the skip result can be written as .slp and re-read to the same start/end/metadata, and written as .slpp and re-read; peppi::read with skip_frames on the .slpp of the full game returns the same start/end/metadata/gecko/hash and zero rows. One evaluation = one (file, hash) pair. distinct = workload classes x hash.".into()
 	}
 	fn assumptions(&self) -> Vec<String> {
 		vec![".slpp legs are skipped (counted) for versions 3.0-3.6 / empty port sets, where peppi::write panics (known finding under C02/C14)".into()]
 	}
 	fn n_cases(&self, ctx: &Ctx) -> usize {
-		self.fixtures.len() + ctx.tier.pick(&self.quick, &self.thorough).len()
+		self.fixtures.len() + ctx.tier.pick(&self.quick, &self.thorough).len() + ctx.tier.pick(8, 48)
 	}
 	fn min_classes(&self, tier: Tier) -> usize {
 		tier.pick(80, 150)
 	}
 	fn run(&self, ctx: &Ctx, idx: usize) -> CaseOut {
 		let mut out = CaseOut::default();
-		let Some((desc, bytes, truth)) = case_input(ctx.tier.pick(&self.quick, &self.thorough), &self.fixtures, ctx.seed, idx, &mut out) else { return out };
+		let n_main = self.fixtures.len() + ctx.tier.pick(&self.quick, &self.thorough).len();
+		let input = if idx >= n_main {
+			aligned_case(idx - n_main, ctx.seed, &mut out)
+		} else {
+			case_input(ctx.tier.pick(&self.quick, &self.thorough), &self.fixtures, ctx.seed, idx, &mut out)
+		};
+		let Some((desc, bytes, truth)) = input else { return out };
 		if truth.ends.is_empty() {
 			// not a finished replay: outside C10 (skip mode must refuse or fail; C06/C07)
 			out.classes.clear();
@@ -142,4 +148,57 @@ impl Monitor for C10 {
 		}
 		out
 	}
+}
+
+/// Finished replays whose skipped region (everything between Game Start and the
+/// final Game End) is an exact multiple of a buffer-sized block (4 KiB, 8 KiB,
+/// 64 KiB) or one frame more / less: sizes at which chunked skipping code changes
+/// behaviour. Found by solving n * frame_bytes + gecko_bytes = 0 (mod block).
+fn aligned_case(k: usize, seed: u64, out: &mut CaseOut) -> Option<(String, Vec<u8>, crate::model::Model)> {
+	use crate::spec::{self, Kind};
+	let mut rng = crate::rng::Rng::derive(seed, 0xA11 + k as u64);
+	let blocks = [4096usize, 8192, 65536, 8192, 65536, 4096];
+	let block = blocks[k % blocks.len()];
+	let vers = [(1u8, 0u8), (3, 16), (2, 0), (0, 1), (3, 7), (2, 2), (3, 12), (1, 3)];
+	let v = vers[(k / 2) % vers.len()];
+	let ports: Vec<(u8, bool)> = if k % 3 == 0 { vec![(0, false), (1, false)] } else if k % 3 == 1 { vec![(0, true), (2, false)] } else { vec![(1, false)] };
+	let nchars: usize = ports.iter().map(|(_, i)| 1 + *i as usize).sum();
+	let mut frame_bytes = nchars * (1 + Kind::Pre.payload_size(v) + 1 + Kind::Post.payload_size(v));
+	if Kind::FStart.exists(v) {
+		frame_bytes += 1 + Kind::FStart.payload_size(v);
+	}
+	if Kind::FEnd.exists(v) {
+		frame_bytes += 1 + Kind::FEnd.payload_size(v);
+	}
+	let gecko_blocks = if spec::gte(v, (3, 3)) { k % 3 } else { 0 };
+	let gecko_bytes = gecko_blocks * 517;
+	// smallest n >= 1 with (n * frame_bytes + gecko_bytes) % block == 0
+	let mut n = None;
+	for cand in 1..=70_000usize {
+		if (cand * frame_bytes + gecko_bytes) % block == 0 {
+			n = Some(cand);
+			break;
+		}
+	}
+	let Some(n0) = n else {
+		out.observe("aligned_cases_without_solution", format!("v{}.{} frame_bytes={} gecko={} block={}", v.0, v.1, frame_bytes, gecko_bytes, block));
+		return None;
+	};
+	// exact multiple, or one frame off
+	let n = match k % 4 {
+		3 => n0 + 1,
+		_ => n0,
+	};
+	let mut s = crate::gen::base_spec((v.0, v.1, 0), ports, n);
+	for f in s.frames.iter_mut() {
+		f.items = 0;
+	}
+	s.gecko_blocks = gecko_blocks;
+	s.gecko_tail = if gecko_blocks > 0 { 11 } else { 0 };
+	s.ends = 1;
+	s.metadata = if k % 2 == 0 { Some(crate::gen::gen_meta(&mut rng, 1, 2)) } else { None };
+	let b = crate::gen::build(&s, &mut rng);
+	let skipped = n * frame_bytes + gecko_bytes;
+	out.class(format!("aligned|block={}|{}|v{}.{}", block, if skipped % block == 0 { "exact-multiple" } else { "one-frame-off" }, v.0, v.1));
+	Some((format!("{} [skipped region {} bytes = {} x {} + {}]", s.describe(), skipped, skipped / block, block, skipped % block), b.bytes, b.truth))
 }
